@@ -52,9 +52,11 @@ func c05entries() []c05entry {
 	return []c05entry{
 		{"Valid", func(s string) string { return fmt.Sprint(sonic.Valid(asBytes(s))) }},
 		{"ValidString", func(s string) string { return fmt.Sprint(sonic.ValidString(s)) }},
-		{"Unmarshal:interface", func(s string) string { var v interface{}; err := sonic.Unmarshal(asBytes(s), &v); return r(v, err) }},
+		// sonic.Unmarshal([]byte) copies its input to the Go heap before decoding: the placement
+		// never reaches the decoder and what follows sonic's own copy is not under the harness's
+		// control, so only the string entry points (decoded in place) are driven here
 		{"UnmarshalString:interface", func(s string) string { var v interface{}; err := sonic.UnmarshalString(s, &v); return r(v, err) }},
-		{"ConfigStd.Unmarshal:interface", func(s string) string { var v interface{}; err := sonic.ConfigStd.Unmarshal(asBytes(s), &v); return r(v, err) }},
+		{"ConfigStd.UnmarshalString:interface", func(s string) string { var v interface{}; err := sonic.ConfigStd.UnmarshalFromString(s, &v); return r(v, err) }},
 		{"Unmarshal:struct", func(s string) string { var v dAB; err := sonic.UnmarshalString(s, &v); return r(v, err) }},
 		{"Unmarshal:string", func(s string) string { var v string; err := sonic.UnmarshalString(s, &v); return r(v, err) }},
 		{"Unmarshal:float64", func(s string) string {
@@ -237,6 +239,26 @@ func c05inputs(c *ev.Ctx, thorough bool, f func(s []byte) bool) {
 			}
 		}
 	}
+	// blank runs of every short length (the scanners skip up to 4 blanks unrolled, then switch
+	// to a vector loop) behind every token boundary of two documents, with the input ending
+	// right behind the run or continuing
+	for _, d := range [][]string{{"{", `"a"`, ":", "[", "1", ",", "{", `"b"`, ":", `"s"`, "}", "]", ",", `"c"`, ":", "true", "}"}, {"[", "-0", ",", "[", "null", "]", ",", `"x"`, "]"}} {
+		for cut := 0; cut <= len(d); cut++ {
+			unit++
+			if !c.Mine(unit) {
+				continue
+			}
+			head, rest := strings.Join(d[:cut], ""), strings.Join(d[cut:], "")
+			for _, k := range []int{1, 2, 3, 4, 5, 6, 7, 8, 9, 15, 16, 17, 31, 32, 33, 63, 64, 65} {
+				for _, bl := range []string{" ", "\n", " \t\r\n"} {
+					run := strings.Repeat(bl, (k+len(bl)-1)/len(bl))[:k]
+					if !f([]byte(head+run)) || !f([]byte(head+run+rest)) {
+						return
+					}
+				}
+			}
+		}
+	}
 	// every proper prefix of a few documents (truncation right behind every byte)
 	for di, d := range []string{`{"a":true,"b":[null,false,-0.5e+3,"x\ny"],"c":{"d":"é"}}`, `[true,false,null,"s",-0,1.5,{"a":1}]`, `"😀é\"\\"`, `  true  `, `-12.5E-3`} {
 		unit++
@@ -324,7 +346,12 @@ func init() {
 		return l
 	}
 	judge := func(e *c05entry, pl string, s []byte) *ev.Violation {
-		ref := e.f(string(append(make([]byte, 0, len(s)), s...)))
+		// reference placement: a private copy followed by 16 zero bytes of the same allocation
+		// (an exact-length heap copy would be followed by whatever the allocator left there,
+		// which the routines with a known over-read would observe: not a deterministic reference)
+		rb := make([]byte, len(s)+16)
+		copy(rb, s)
+		ref := e.f(unsafe.String(&rb[0], len(s)))
 		ps, ok := place(pl, s)
 		if !ok {
 			return nil
@@ -361,14 +388,14 @@ func init() {
 				cls = "bytes-after-the-input"
 			}
 			return &ev.Violation{Property: "C05", Key: e.name + ":result-depends-on:" + cls + ":" + c05shape(s), What: "the result of a call depends on where the input lies in memory or on what follows it",
-				Case: ev.J(c05case{e.name, pl, fmt.Sprintf("%x", s)}), Expected: clipS(ref, 200) + "   (private exact-length heap copy)", Observed: clipS(got, 200) + fmt.Sprintf("   (placement %s, input %q)", pl, clip(s, 60))}
+				Case: ev.J(c05case{e.name, pl, fmt.Sprintf("%x", s)}), Expected: clipS(ref, 200) + "   (private copy followed by NUL bytes)", Observed: clipS(got, 200) + fmt.Sprintf("   (placement %s, input %q)", pl, clip(s, 60))}
 		}
 		return nil
 	}
 	ev.Register(&ev.Check{
 		ID: "C05", Level: "exploration", Workers: 16, QuickSecs: 150, ThorSecs: 1500,
 		Rule: "inputs = every concatenation of <= 3 (quick) / 4 (thorough) tokens of the 34-token alphabet u 15 payloads at offsets of every length 0..136 (bare, as a string literal, inside an object) u digit/space/bracket/literal runs of every length 1..136 u every truncation of 5 documents; " +
-			"x 30 entry points (Valid, Unmarshal into 10 destinations, Get/GetFromString/GetWithOptions, NewRaw, Preorder, Skip, Quote, unquote, HTMLEscape, utf8 Validate/CorrectWith, Marshal of a string / []byte / map key living in the placed memory) " +
+			"x 29 entry points (Valid, Unmarshal into 10 destinations, Get/GetFromString/GetWithOptions, NewRaw, Preorder, Skip, Quote, unquote, HTMLEscape, utf8 Validate/CorrectWith, Marshal of a string / []byte / map key living in the placed memory) " +
 			"x placements {ending at the last byte of a page followed by an unmapped page; starting at a page start preceded by an unmapped page; followed in the same array by each of 8 adversarial continuations; at 13 (quick) / all 64 (thorough) start alignments}; " +
 			"oracle: observation identical to that of a private exact-length heap copy; a fault is a worker death attributed to the announced case (confirmed 5x). distinct_nontrivial = distinct (entry point, input) pairs whose reference observation is not an error",
 		Assume: []string{"over-reads that stay inside a mapped page and do not influence the result are unobservable (and harmless by the property's wording)", "SSE variants are covered by C13 on the same strata"},
